@@ -800,12 +800,33 @@ def classify(prop, f):
     return "proto:%s:%s" % (prop, kind)
 
 
+COMMON_THEOREMS = [
+    "Iauthd.Proto.runOps_total_inv",
+    "Iauthd.Proto.stepLine_inv",
+    "Iauthd.Proto.stepLine_total",
+]
+
+THEOREMS = {
+    "C01": ["Iauthd.Properties.C01_invariant", "Iauthd.Properties.C01_verdict_removes", "Iauthd.Properties.C01_unknown_id_inert",
+            "Iauthd.Proto.accept_spec", "Iauthd.Proto.kill_spec", "Iauthd.Proto.gate_spec", "Iauthd.Proto.reqEvent_spec",
+            "Iauthd.Proto.xqReply_spec", "Iauthd.Proto.withReq_inv"],
+    "C08": ["Iauthd.Properties.C08_no_fault", "Iauthd.Properties.C08_line_total", "Iauthd.Proto.stepChunk_total",
+            "Iauthd.Proto.stepTimeout_total", "Iauthd.Proto.accept_ok", "Iauthd.Proto.gate_ok", "Iauthd.Proto.reqEvent_ok",
+            "Iauthd.Proto.xqReply_ok", "Iauthd.Proto.newClient_ok", "Iauthd.Addr.pton_safe"],
+}
+
+PROP_IMPORTS = {
+    "C01": ["Iauthd.Properties.C01"],
+    "C08": ["Iauthd.Properties.C08"],
+}
+
+
 def theorems(prop):
-    return []
+    return THEOREMS.get(prop, []) + COMMON_THEOREMS
 
 
 def lean_imports(prop):
-    return ["Iauthd.Proto.Step", "Drv.ProtoMain"]
+    return PROP_IMPORTS.get(prop, ["Iauthd.Proto.Table"]) + ["Drv.ProtoMain"]
 
 
 def lean_targets(prop):
@@ -813,7 +834,7 @@ def lean_targets(prop):
 
 
 def lean_modules(prop):
-    return ["Iauthd.Proto.Text", "Iauthd.Proto.Model", "Iauthd.Proto.Handlers", "Iauthd.Proto.Step"]
+    return ["Iauthd.Proto.Text", "Iauthd.Proto.Model", "Iauthd.Proto.Handlers", "Iauthd.Proto.Step", "Iauthd.Proto.Hist", "Iauthd.Proto.Proofs", "Iauthd.Proto.Table"]
 
 
 def checker_cmd(prop):
